@@ -51,6 +51,71 @@ def main():
         except ImportError:
             pass
 
+    # ---- (a0) one cache slot, two hash functions: whatever is asked first, an object answers each format with that format's hash
+    try:
+        from dulwich.object_format import SHA1, SHA256
+        for mk in (lambda fmt: O.ShaFile.from_raw_string(3, b"x", object_format=fmt), lambda fmt: O.ShaFile.from_raw_string(2, b"", object_format=fmt),
+                   lambda fmt: O.ShaFile.from_raw_string(1, b"tree " + b"0" * (40 if fmt is SHA1 else 64) + b"\nauthor a <a@b> 0 +0000\ncommitter a <a@b> 0 +0000\n\nm\n", object_format=fmt)):
+            for fmt in (SHA1, SHA256):
+                for order in (("id", "own", "other"), ("own", "id", "other"), ("other", "own", "id"), ("hash", "other", "own"), ("edit", "own", "other")):
+                    cases += 1
+                    try:
+                        o = mk(fmt)
+                    except Exception:  # noqa: BLE001
+                        continue
+                    raw = o.as_raw_string()
+                    hdr = o.type_name + b" " + str(len(raw)).encode() + b"\0"
+                    want = {SHA1: hashlib.sha1(hdr + raw).hexdigest().encode(), SHA256: hashlib.sha256(hdr + raw).hexdigest().encode()}
+                    other = SHA256 if fmt is SHA1 else SHA1
+                    for step in order:
+                        if step == "id":
+                            _ = o.id
+                        elif step == "hash":
+                            _ = hash(o)
+                        elif step == "edit" and isinstance(o, O.Blob):
+                            o.data = o.data
+                        elif step == "own" and o.get_id(fmt) != want[fmt]:
+                            fail("get_id(own format) is not that format's hash of header ++ content", {"format": fmt.name if hasattr(fmt, "name") else repr(fmt), "order": list(order), "got": o.get_id(fmt).decode()})
+                        elif step == "other" and o.get_id(other) != want[other]:
+                            fail("get_id(other format) is not that format's hash of header ++ content", {"format": repr(other), "order": list(order), "got": o.get_id(other).decode()})
+    except ImportError:
+        pass
+    # ---- (a1) copy() keeps type, bytes, id and object format, for both hash functions
+    try:
+        from dulwich.object_format import SHA1, SHA256
+        for fmt in (SHA1, SHA256):
+            hexlen = 40 if fmt is SHA1 else 64
+            tr = Tree()
+            tr.object_format = fmt
+            tr.add(b"a", 0o100644, b"ab" * (hexlen // 2))
+            tr.add(b"d", 0o40000, b"cd" * (hexlen // 2))
+            bl = O.ShaFile.from_raw_string(3, b"blob data", object_format=fmt)
+            for o in (tr, bl):
+                cases += 1
+                try:
+                    c2 = o.copy()
+                    if type(c2) is not type(o) or c2.as_raw_string() != o.as_raw_string() or c2.get_id(fmt) != o.get_id(fmt) or c2.object_format is not fmt:
+                        fail("copy() does not preserve bytes / id / object format", {"type": o.type_name.decode(), "format": repr(fmt)})
+                except Exception as e:  # noqa: BLE001
+                    fail("copy() raised", {"type": o.type_name.decode(), "format": repr(fmt), "exc": repr(e)[:150]})
+    except ImportError:
+        pass
+    # ---- (a2) listed findings, own labels: (i) an object parsed WITHOUT the blank line after its headers (no message at all) gains
+    #      one when a setter forces re-serialisation; (ii) the '-0000' / unnecessary-minus flag has no setter and survives a new offset
+    for raw_, kind in ((b"tree " + b"a" * 40 + b"\nauthor A <a@b> 0 +0000\ncommitter A <a@b> 0 +0000\n", "commit"), (b"object " + b"a" * 40 + b"\ntype commit\ntag v1\n", "tag")):
+        cases += 1
+        o = (Commit if kind == "commit" else Tag).from_string(raw_)
+        if kind == "commit":
+            o.tree = o.tree
+        else:
+            o.name = o.name
+        if o.as_raw_string() != raw_:
+            fail("an object parsed without the blank line after its headers gains one when re-serialised", {"type": kind, "rewritten_tail": o.as_raw_string()[-12:].decode("latin-1")})
+    cases += 1
+    o = Commit.from_string(b"tree " + b"a" * 40 + b"\nauthor A <a@b> 5 -0000\ncommitter A <a@b> 0 +0000\n\nm\n")
+    o.author_timezone = 3600
+    if b"author A <a@b> 5 +0100\n" not in o.as_raw_string():
+        fail("the -0000 flag survives a time zone setter (a new offset is written with an unnecessary minus)", {"line": o.as_raw_string().split(b"\n")[1].decode("latin-1")})
     # ---- (a) timezones ------------------------------------------------------------------------------------------
     for sign in (b"+", b"-"):
         for hh in range(100):
@@ -186,7 +251,8 @@ def main():
 
     # tags
     for target in ((Commit, P1), (Tree, T1), (Blob, P2), (Tag, P3)):
-        for tagger, when in [(None, None), (IDENTS[0], (1, ZONES[0])), (IDENTS[1], (TIMES[4], ZONES[1])), (IDENTS[0], (-1, ZONES[3])), (IDENTS[2], None)]:
+        for tagger, when in [(None, None), (IDENTS[0], (1, ZONES[0])), (IDENTS[1], (TIMES[4], ZONES[1])), (IDENTS[0], (-1, ZONES[3])), (IDENTS[2], None),
+                             (IDENTS[0], (0, ZONES[0])), (IDENTS[1], (0, ZONES[3]))]:           # (the epoch itself: a falsy time stamp)
             for message in (b"", b"msg\n", b"multi\n\nline\n", None):
                 for signature in (None, SIG + b"\n", SSHSIG + b"\n"):
                     for name in (b"v1", b"\xff odd name"):
